@@ -880,6 +880,13 @@ func (p *parser) parsePrimary() Expr {
 	switch t.kind {
 	case tNumber:
 		p.next()
+		if !strings.Contains(t.text, "'") {
+			if nt := p.peek(); nt.kind == tNumber && strings.HasPrefix(nt.text, "'") {
+				// size and based part separated by blanks
+				p.next()
+				t.text += nt.text
+			}
+		}
 		n, err := parseNumber(t.text)
 		if err != "" {
 			p.synErr(t.line, err)
